@@ -104,6 +104,10 @@ type dirPlan struct {
 	rawFlip int64
 	seen    *int64 // frames forwarded
 	onFrame func(idx int, n int)
+	// closeAfter > 0: after forwarding frame closeAfter (as rewritten, e.g. cut short) the connection ends
+	closeAfter int
+	// cut: the raw tail is forwarded up to offset rawFlip only, then the connection ends
+	cut bool
 }
 
 // pump forwards src to dst according to plan; on any error both ends are closed.
@@ -146,6 +150,9 @@ func pump(src, dst net.Conn, p dirPlan, wg *sync.WaitGroup) {
 		if p.seen != nil {
 			atomic.AddInt64(p.seen, 1)
 		}
+		if p.closeAfter == idx {
+			return
+		}
 	}
 	// raw tail
 	buf := make([]byte, 32<<10)
@@ -153,6 +160,12 @@ func pump(src, dst net.Conn, p dirPlan, wg *sync.WaitGroup) {
 	for {
 		n, err := src.Read(buf)
 		if n > 0 {
+			if p.cut && p.rawFlip < off+int64(n) {
+				if k := p.rawFlip - off; k > 0 {
+					dst.Write(buf[:k])
+				}
+				return
+			}
 			if p.flip && p.rawFlip >= off && p.rawFlip < off+int64(n) {
 				buf[p.rawFlip-off] ^= 0x10
 			}
